@@ -1,4 +1,4 @@
-(* requires: ValueTiers Json Float64 RustText *)
+(* requires: ValueTiers JsonV7 Float64 RustText *)
 (* C07 probe: drives the extracted models Model/{ValueTiers,Json,RustText,Float64}.v with the same
    case lines as harness/src/probes/value.rs, plus the per-cell lines of the engine-level check.
    Parsing of the case and printing only. *)
@@ -11,16 +11,16 @@ let hexout b = if b = [] then "" else hex_of_bytes b
 let z_of_hex s = z_of_zt (Z.of_string ("0x" ^ s))
 let hex16 z = Z.format "%016x" (zt_of_z z)
 
-let rec json_out (v : Json.json) : string =
+let rec json_out (v : JsonV7.json) : string =
   match v with
-  | Json.JNull -> "n"
-  | Json.JBool b -> if b then "b1" else "b0"
-  | Json.JU64 n -> "i" ^ string_of_z n
-  | Json.JI64 z -> "i" ^ string_of_z z
-  | Json.JF64 b -> "f" ^ hex16 b
-  | Json.JStr s -> "s" ^ hexout s
-  | Json.JArr l -> "[" ^ Stdlib.String.concat "," (Stdlib.List.map json_out l) ^ "]"
-  | Json.JObj l -> "{" ^ Stdlib.String.concat "," (Stdlib.List.map (fun (k, x) -> hexout k ^ ":" ^ json_out x) l) ^ "}"
+  | JsonV7.JNull -> "n"
+  | JsonV7.JBool b -> if b then "b1" else "b0"
+  | JsonV7.JU64 n -> "i" ^ string_of_z n
+  | JsonV7.JI64 z -> "i" ^ string_of_z z
+  | JsonV7.JF64 b -> "f" ^ hex16 b
+  | JsonV7.JStr s -> "s" ^ hexout s
+  | JsonV7.JArr l -> "[" ^ Stdlib.String.concat "," (Stdlib.List.map json_out l) ^ "]"
+  | JsonV7.JObj l -> "{" ^ Stdlib.String.concat "," (Stdlib.List.map (fun (k, x) -> hexout k ^ ":" ^ json_out x) l) ^ "}"
 
 let scalar_out (s : V.scalar) : string =
   match s with
@@ -40,15 +40,15 @@ let scalar_in (t : string) : V.scalar =
   | _ -> failwith "scalar"
 
 (* stored payload entry of the engine-level lines: a = key absent; otherwise a scalar JSON value *)
-let stored_in (t : string) : Json.json option =
+let stored_in (t : string) : JsonV7.json option =
   match t.[0] with
   | 'a' -> None
-  | 'n' -> Some Json.JNull
-  | 'b' -> Some (Json.JBool (t = "b1"))
+  | 'n' -> Some JsonV7.JNull
+  | 'b' -> Some (JsonV7.JBool (t = "b1"))
   | 'i' -> let z = Z.of_string (tl1 t) in
-           Some (if Z.sign z < 0 then Json.JI64 (z_of_zt z) else Json.JU64 (z_of_zt z))
-  | 'f' -> Some (Json.JF64 (z_of_hex (tl1 t)))
-  | 's' -> Some (Json.JStr (hexbytes (tl1 t)))
+           Some (if Z.sign z < 0 then JsonV7.JI64 (z_of_zt z) else JsonV7.JU64 (z_of_zt z))
+  | 'f' -> Some (JsonV7.JF64 (z_of_hex (tl1 t)))
+  | 's' -> Some (JsonV7.JStr (hexbytes (tl1 t)))
   | _ -> failwith "stored"
 
 let rec ftype_in (t : string) : V.ftype =
@@ -86,7 +86,7 @@ let run (t : string list) : string =
   | ["value_parse"; h] ->
       (match V.store_parse (bytes_of_hex h) with Some v -> json_out v | None -> "ERR")
   | ["value_fromjson"; h] ->
-      (match Json.parse_json (bytes_of_hex h) with Some v -> scalar_out (V.scalar_of_json v) | None -> "ERR")
+      (match JsonV7.parse_json (bytes_of_hex h) with Some v -> scalar_out (V.scalar_of_json v) | None -> "ERR")
   | ["value_tojson"; s] -> json_out (V.json_of_scalar (scalar_in s))
   | ["value_wal"; s] -> scalar_out (V.wal_scalar (scalar_in s))
   | ["value_builder"; "var"; h] -> scalar_out (V.read_cell (V.CVar (bytes_of_hex h)))
